@@ -12,7 +12,7 @@ IP = 'impl Parser/'
 ERR = (r'self\.err\(', 'hook_error_at(self.loc, ', None, 'R8')
 PEEKGET = (r'self\.b\.get\(([^()]+)\)\.copied\(\)', r'bytes_get(self.b, \1)', None, 'R8')
 DIGIT = (r'\b(\w+)\.is_ascii_digit\(\)', r'u8_is_ascii_digit(\1)', None, 'R8')
-BOR = [(r'used_unit \|= uu;', 'used_unit = used_unit || uu;', 2, 'R32'), (r'saw_plain \|= sp;', 'saw_plain = saw_plain || sp;', 2, 'R32')]
+BOR = [(r'used_unit \|= uu;', 'used_unit = used_unit || uu;', None, 'R32'), (r'saw_plain \|= sp;', 'saw_plain = saw_plain || sp;', None, 'R32')]
 KEEP = 'final(self).wf() && final(self).same_input(old(self)) && final(self).depth == old(self).depth && final(self).sexagesimal_is_time == old(self).sexagesimal_is_time'
 
 ITEMS = location_types() + budget_types() + error_types() + [
@@ -32,8 +32,11 @@ ITEMS = location_types() + budget_types() + error_types() + [
     dict(src=R, path=IP + 'fn is_ws', props=P, ensures=[('value', 'r == (c == 0x20 || c == 0x09 || c == 0x0a || c == 0x0d)')]),
     dict(src=R, path=IP + 'fn skip_ws', props=P,
          requires=[('wf', 'old(self).wf()')],
-         ensures=[('keeps', KEEP), ('forward', 'final(self).i >= old(self).i')],
-         loops={1: dict(invariant=[('inv', 'self.wf() && self.same_input(old(self)) && self.depth == old(self).depth && self.sexagesimal_is_time == old(self).sexagesimal_is_time && self.i >= old(self).i')],
+         ensures=[('keeps', KEEP), ('forward', 'final(self).i >= old(self).i'),
+                  ('stops_at_the_first_non_blank', 'final(self).i == skip_ws_pos(old(self).b@, old(self).i as int)')],
+         loops={1: dict(invariant=[('inv', 'self.wf() && self.same_input(old(self)) && self.depth == old(self).depth && self.sexagesimal_is_time == old(self).sexagesimal_is_time && self.i >= old(self).i'),
+                                   ('same_target', 'skip_ws_pos(self.b@, self.i as int) == skip_ws_pos(old(self).b@, old(self).i as int)')],
+                        ensures=[('at_target', 'self.i == skip_ws_pos(self.b@, self.i as int)')],
                         decreases='self.b@.len() - self.i')}),
     dict(src=R, path=IP + 'fn err', trusted=True, props=[], ensures=[('is_hook_error', 'r is HookError')]),
     dict(src=R, path=IP + 'fn enter', props=P,
@@ -149,9 +152,9 @@ ITEMS = location_types() + budget_types() + error_types() + [
     dict(src=R, path=IP + 'fn try_parse_sexagesimal', props=P,
          rewrites=[PEEKGET, DIGIT,
                    (r'self\.b\.get\(j\)\.copied\(\)', 'bytes_get(self.b, j)', None, 'R8'),
-                   (r'let degrees = deg_whole \+ \(mins_u as f64\) / 60\.0 \+ secs / 3600\.0;', 'let degrees = fadd(fadd(deg_whole, fdiv(u32_to_f64(mins_u), 60.0)), fdiv(secs, 3600.0));', 2, 'R8'),
-                   (r'let total_seconds = deg_whole \* 3600\.0 \+ \(mins_u as f64\) \* 60\.0 \+ secs;', 'let total_seconds = fadd(fadd(fmul(deg_whole, 3600.0), fmul(u32_to_f64(mins_u), 60.0)), secs);', 2, 'R8'),
-                   (r'degrees \* DEG2RAD', 'fmul(degrees, f64_deg2rad())', 1, 'R8'),
+                   (r'let degrees = deg_whole \+ \(mins_u as f64\) / 60\.0 \+ secs / 3600\.0;', 'let degrees = fadd(fadd(deg_whole, fdiv(u32_to_f64(mins_u), 60.0)), fdiv(secs, 3600.0));', None, 'R8'),
+                   (r'let total_seconds = deg_whole \* 3600\.0 \+ \(mins_u as f64\) \* 60\.0 \+ secs;', 'let total_seconds = fadd(fadd(fmul(deg_whole, 3600.0), fmul(u32_to_f64(mins_u), 60.0)), secs);', None, 'R8'),
+                   (r'degrees \* DEG2RAD', 'fmul(degrees, f64_deg2rad())', None, 'R8'),
                    (r'secs = secs_u as f64;', 'secs = u32_to_f64(secs_u);', 1, 'R8'),
                    (r'secs \+= frac;', 'secs = fadd(secs, frac);', 1, 'R8')],
          requires=[('wf', 'old(self).wf()')],
@@ -162,7 +165,7 @@ ITEMS = location_types() + budget_types() + error_types() + [
          canaries=['C19:text_that_is_not_sexagesimal_leaves_the_cursor_untouched', 'C19:a_sexagesimal_value_carries_a_unit']),
     dict(src=R, path=IP + 'fn parse_number_or_special', props=P,
          rewrites=[PEEKGET, (r'self\.b\[self\.i - 1\]\.is_ascii_digit\(\)', 'u8_is_ascii_digit(self.b[self.i - 1])', 3, 'R8'), DIGIT,
-                   (r'f64::INFINITY', 'f64_infinity()', 1, 'R8'), (r'f64::NAN', 'f64_nan()', 1, 'R8'),
+                   (r'f64::INFINITY', 'f64_infinity()', None, 'R8'), (r'f64::NAN', 'f64_nan()', None, 'R8'),
                    (r'&self\.s\[start\.\.self\.i\]', 'str_slice(self.s, start, self.i)', 1, 'R8'),
                    (r'f64::from_str\(s\) \{', 'f64_from_str(s) {', 1, 'R8'),
                    (r"core::str::from_utf8\(&buf\)\s*\.map_err\(\|_e\| self\.err\(\"invalid utf-8 in numeric literal\"\)\)\s*\.and_then\(\|s\| f64::from_str\(s\)\.map_err\(\|_e\| self\.err\(\"invalid float literal\"\)\)\)",
@@ -175,7 +178,8 @@ ITEMS = location_types() + budget_types() + error_types() + [
                         ||| (kw_at(b, i0, seq![0x2eu8, 0x6e, 0x61, 0x6e]) && i1 == i0 + 4 && e == (sp_nan(), false, true))
                         ||| (e.1 && !e.2 && i1 > i0)
                         ||| (!e.1 && e.2 && i1 > i0 && sp_f64_parse(strip_us(b.subrange(i0, i1))) == Some(e.0)) }),
-                      Err(_) => true }''')],
+                      Err(_) => true }'''),
+                  ('reference_number', 'r is Ok ==> r_number(old(self).b@, old(self).i as int, final(self).i as int, r->Ok_0)')],
          proofs=[dict(at='start', ghost=True, text='let ghost bb = self.b@;'),
                  dict(at='start', text='assert(".inf".spec_bytes() =~= seq![0x2eu8, 0x69, 0x6e, 0x66]) by { lemma_dot_inf_nan(); } assert(".nan".spec_bytes() =~= seq![0x2eu8, 0x6e, 0x61, 0x6e]) by { lemma_dot_inf_nan(); }'),
                  dict(after='let mut buf = Vec::<u8>::with_capacity(32);', text='assert(bb.subrange(start as int, start as int) =~= Seq::<u8>::empty());'),
@@ -195,47 +199,160 @@ ITEMS = location_types() + budget_types() + error_types() + [
                     ('literal_so_far', 'buf@ == strip_us(bb.subrange(start as int, self.i as int)) && digits_seen <= 1_000_000 && (self.i > start ==> buf@.len() > 0)'), ('nonempty', 'buf@.len() > 0')], decreases='self.b@.len() - self.i')},
          canaries=['C19:number_is_a_special_a_sexagesimal_or_exactly_its_literal_minus_separators']),
     dict(src=R, path=IP + 'fn expr', props=P,
-         rewrites=[(r'v \+= rhs;', 'v = fadd(v, rhs);', 1, 'R8'), (r'v -= rhs;', 'v = fsub(v, rhs);', 1, 'R8')] + BOR,
+         rewrites=[(r'v \+= rhs;', 'v = fadd(v, rhs);', None, 'R8'), (r'v -= rhs;', 'v = fsub(v, rhs);', None, 'R8'),
+                   (r'_ => break,', '_ => { break; }', 1, 'R8')] + BOR,
          requires=[('wf', 'old(self).wf()')],
-         ensures=[('keeps', 'final(self).wf() && final(self).same_input(old(self)) && final(self).depth == old(self).depth'), ('mode_restored', 'r is Ok ==> final(self).sexagesimal_is_time == old(self).sexagesimal_is_time'), ('forward', 'final(self).i >= old(self).i')],
+         ensures=[('keeps', 'final(self).wf() && final(self).same_input(old(self)) && final(self).depth == old(self).depth'), ('mode_restored', 'r is Ok ==> final(self).sexagesimal_is_time == old(self).sexagesimal_is_time'), ('forward', 'final(self).i >= old(self).i'),
+                  ('C19:expr_is_the_left_associative_fold_of_the_reference_grammar', 'r is Ok ==> r_expr(old(self).b@, old(self).i as int, final(self).i as int, old(self).sexagesimal_is_time, old(self).tag, old(self).depth as int, r->Ok_0)')],
          decreases='old(self).b@.len() - old(self).i, 5int',
-         loops={1: dict(invariant=[('inv', 'self.wf() && self.same_input(old(self)) && self.depth == old(self).depth && self.sexagesimal_is_time == old(self).sexagesimal_is_time && self.i >= old(self).i')], decreases='self.b@.len() - self.i')}),
+         proofs=[dict(at='start', ghost=True, text='let ghost bb = self.b@; let ghost i0 = self.i as int; let ghost gm = self.sexagesimal_is_time; let ghost gt = self.tag; let ghost gd = self.depth as int;'),
+                 dict(at='start', text='reveal(wit);'),
+                 dict(before='loop {', text='''
+                    assert forall|i1: int, e: Ev3| #[trigger] r_expr_tail(bb, self.i as int, i1, gm, gt, gd, (v, used_unit, saw_plain), e) implies r_expr(bb, i0, i1, gm, gt, gd, e) by {
+                        lemma_expr_tail_bound(bb, self.i as int, i1, gm, gt, gd, (v, used_unit, saw_plain), e);
+                        assert(wit(self.i as int, (v, used_unit, saw_plain)));
+                    }'''),
+                 dict(after='loop {', ghost=True, text='let ghost j0 = self.i as int; let ghost acc0 = (v, used_unit, saw_plain);'),
+                 dict(after='saw_plain = saw_plain || sp;', nth=1, text='''
+                    lemma_skip_ws_pos(bb, j0);
+                    assert forall|i1: int, e: Ev3| #[trigger] r_expr_tail(bb, self.i as int, i1, gm, gt, gd, (v, used_unit, saw_plain), e) implies r_expr(bb, i0, i1, gm, gt, gd, e) by {
+                        lemma_expr_tail_bound(bb, self.i as int, i1, gm, gt, gd, (v, used_unit, saw_plain), e);
+                        reveal(wit); assert(wit(self.i as int, (rhs, uu, sp)));
+                        assert(r_expr_tail(bb, j0, i1, gm, gt, gd, acc0, e));
+                    }'''),
+                 dict(after='saw_plain = saw_plain || sp;', nth=2, text='''
+                    lemma_skip_ws_pos(bb, j0);
+                    assert forall|i1: int, e: Ev3| #[trigger] r_expr_tail(bb, self.i as int, i1, gm, gt, gd, (v, used_unit, saw_plain), e) implies r_expr(bb, i0, i1, gm, gt, gd, e) by {
+                        lemma_expr_tail_bound(bb, self.i as int, i1, gm, gt, gd, (v, used_unit, saw_plain), e);
+                        reveal(wit); assert(wit(self.i as int, (rhs, uu, sp)));
+                        assert(r_expr_tail(bb, j0, i1, gm, gt, gd, acc0, e));
+                    }'''),
+                 dict(before='break;', text='''
+                    lemma_skip_ws_pos(bb, j0);
+                    assert forall|i1: int, e: Ev3| #[trigger] r_expr_tail(bb, self.i as int, i1, gm, gt, gd, (v, used_unit, saw_plain), e) implies r_expr(bb, i0, i1, gm, gt, gd, e) by {
+                        lemma_expr_tail_skip(bb, j0, i1, gm, gt, gd, acc0, e);
+                    }'''),
+                 dict(after_loop=1, text='''lemma_skip_ws_pos(bb, self.i as int);
+                    assert(r_expr_tail(bb, self.i as int, self.i as int, gm, gt, gd, (v, used_unit, saw_plain), (v, used_unit, saw_plain)));'''),
+                 ],
+         loops={1: dict(invariant=[('inv', 'self.wf() && self.same_input(old(self)) && self.depth == old(self).depth && self.sexagesimal_is_time == old(self).sexagesimal_is_time && self.i >= old(self).i && self.b@ == bb && i0 == old(self).i && gm == old(self).sexagesimal_is_time && gt == old(self).tag && gd == old(self).depth'),
+                    ('folded_so_far', 'forall|i1: int, e: Ev3| #[trigger] r_expr_tail(bb, self.i as int, i1, gm, gt, gd, (v, used_unit, saw_plain), e) ==> r_expr(bb, i0, i1, gm, gt, gd, e)')],
+                    ensures=[('no_operator_follows', 'self.i == skip_ws_pos(bb, self.i as int) && !(self.i < bb.len() && (bb[self.i as int] == 0x2b || bb[self.i as int] == 0x2d))')],
+                    decreases='self.b@.len() - self.i')},
+         canaries=['C19:expr_is_the_left_associative_fold_of_the_reference_grammar']),
     dict(src=R, path=IP + 'fn term', props=P,
-         rewrites=[(r'v \*= rhs;', 'v = fmul(v, rhs);', 1, 'R8'), (r'v /= rhs;', 'v = fdiv(v, rhs);', 1, 'R8')] + BOR,
+         rewrites=[(r'v \*= rhs;', 'v = fmul(v, rhs);', None, 'R8'), (r'v /= rhs;', 'v = fdiv(v, rhs);', None, 'R8'),
+                   (r'_ => break,', '_ => { break; }', 1, 'R8')] + BOR,
          requires=[('wf', 'old(self).wf()')],
-         ensures=[('keeps', 'final(self).wf() && final(self).same_input(old(self)) && final(self).depth == old(self).depth'), ('mode_restored', 'r is Ok ==> final(self).sexagesimal_is_time == old(self).sexagesimal_is_time'), ('forward', 'final(self).i >= old(self).i')],
+         ensures=[('keeps', 'final(self).wf() && final(self).same_input(old(self)) && final(self).depth == old(self).depth'), ('mode_restored', 'r is Ok ==> final(self).sexagesimal_is_time == old(self).sexagesimal_is_time'), ('forward', 'final(self).i >= old(self).i'),
+                  ('C19:term_is_the_left_associative_fold_of_the_reference_grammar', 'r is Ok ==> r_term(old(self).b@, old(self).i as int, final(self).i as int, old(self).sexagesimal_is_time, old(self).tag, old(self).depth as int, r->Ok_0)')],
          decreases='old(self).b@.len() - old(self).i, 4int',
-         loops={1: dict(invariant=[('inv', 'self.wf() && self.same_input(old(self)) && self.depth == old(self).depth && self.sexagesimal_is_time == old(self).sexagesimal_is_time && self.i >= old(self).i')], decreases='self.b@.len() - self.i')}),
+         proofs=[dict(at='start', ghost=True, text='let ghost bb = self.b@; let ghost i0 = self.i as int; let ghost gm = self.sexagesimal_is_time; let ghost gt = self.tag; let ghost gd = self.depth as int;'),
+                 dict(at='start', text='reveal(wit);'),
+                 dict(before='loop {', text='''
+                    assert forall|i1: int, e: Ev3| #[trigger] r_term_tail(bb, self.i as int, i1, gm, gt, gd, (v, used_unit, saw_plain), e) implies r_term(bb, i0, i1, gm, gt, gd, e) by {
+                        lemma_term_tail_bound(bb, self.i as int, i1, gm, gt, gd, (v, used_unit, saw_plain), e);
+                        assert(wit(self.i as int, (v, used_unit, saw_plain)));
+                    }'''),
+                 dict(after='loop {', ghost=True, text='let ghost j0 = self.i as int; let ghost acc0 = (v, used_unit, saw_plain);'),
+                 dict(after='saw_plain = saw_plain || sp;', nth=1, text='''
+                    lemma_skip_ws_pos(bb, j0);
+                    assert forall|i1: int, e: Ev3| #[trigger] r_term_tail(bb, self.i as int, i1, gm, gt, gd, (v, used_unit, saw_plain), e) implies r_term(bb, i0, i1, gm, gt, gd, e) by {
+                        lemma_term_tail_bound(bb, self.i as int, i1, gm, gt, gd, (v, used_unit, saw_plain), e);
+                        reveal(wit); assert(wit(self.i as int, (rhs, uu, sp)));
+                        assert(r_term_tail(bb, j0, i1, gm, gt, gd, acc0, e));
+                    }'''),
+                 dict(after='saw_plain = saw_plain || sp;', nth=2, text='''
+                    lemma_skip_ws_pos(bb, j0);
+                    assert forall|i1: int, e: Ev3| #[trigger] r_term_tail(bb, self.i as int, i1, gm, gt, gd, (v, used_unit, saw_plain), e) implies r_term(bb, i0, i1, gm, gt, gd, e) by {
+                        lemma_term_tail_bound(bb, self.i as int, i1, gm, gt, gd, (v, used_unit, saw_plain), e);
+                        reveal(wit); assert(wit(self.i as int, (rhs, uu, sp)));
+                        assert(r_term_tail(bb, j0, i1, gm, gt, gd, acc0, e));
+                    }'''),
+                 dict(before='break;', text='''
+                    lemma_skip_ws_pos(bb, j0);
+                    assert forall|i1: int, e: Ev3| #[trigger] r_term_tail(bb, self.i as int, i1, gm, gt, gd, (v, used_unit, saw_plain), e) implies r_term(bb, i0, i1, gm, gt, gd, e) by {
+                        lemma_term_tail_skip(bb, j0, i1, gm, gt, gd, acc0, e);
+                    }'''),
+                 dict(after_loop=1, text='''lemma_skip_ws_pos(bb, self.i as int);
+                    assert(r_term_tail(bb, self.i as int, self.i as int, gm, gt, gd, (v, used_unit, saw_plain), (v, used_unit, saw_plain)));'''),
+                 ],
+         loops={1: dict(invariant=[('inv', 'self.wf() && self.same_input(old(self)) && self.depth == old(self).depth && self.sexagesimal_is_time == old(self).sexagesimal_is_time && self.i >= old(self).i && self.b@ == bb && i0 == old(self).i && gm == old(self).sexagesimal_is_time && gt == old(self).tag && gd == old(self).depth'),
+                    ('folded_so_far', 'forall|i1: int, e: Ev3| #[trigger] r_term_tail(bb, self.i as int, i1, gm, gt, gd, (v, used_unit, saw_plain), e) ==> r_term(bb, i0, i1, gm, gt, gd, e)')],
+                    ensures=[('no_operator_follows', 'self.i == skip_ws_pos(bb, self.i as int) && !(self.i < bb.len() && (bb[self.i as int] == 0x2a || bb[self.i as int] == 0x2f))')],
+                    decreases='self.b@.len() - self.i')},
+         canaries=['C19:term_is_the_left_associative_fold_of_the_reference_grammar']),
     dict(src=R, path=IP + 'fn unary', props=P,
-         rewrites=[(r'sign = -sign;', 'sign = fneg(sign);', 1, 'R8'), (r'Ok\(\(sign \* v, used_unit, saw_plain\)\)', 'Ok((fmul(sign, v), used_unit, saw_plain))', 1, 'R8')],
+         rewrites=[(r'sign = -sign;', 'sign = fneg(sign);', None, 'R8'), (r'Ok\(\(sign \* v, used_unit, saw_plain\)\)', 'Ok((fmul(sign, v), used_unit, saw_plain))', 1, 'R8'),
+                   (r'_ => break,', '_ => { break; }', 1, 'R8')],
          requires=[('wf', 'old(self).wf()')],
-         ensures=[('keeps', 'final(self).wf() && final(self).same_input(old(self)) && final(self).depth == old(self).depth'), ('mode_restored', 'r is Ok ==> final(self).sexagesimal_is_time == old(self).sexagesimal_is_time'), ('forward', 'final(self).i >= old(self).i')],
+         ensures=[('keeps', 'final(self).wf() && final(self).same_input(old(self)) && final(self).depth == old(self).depth'), ('mode_restored', 'r is Ok ==> final(self).sexagesimal_is_time == old(self).sexagesimal_is_time'), ('forward', 'final(self).i >= old(self).i'),
+                  ('C19:unary_applies_every_sign_to_the_primary', 'r is Ok ==> r_unary(old(self).b@, old(self).i as int, final(self).i as int, old(self).sexagesimal_is_time, old(self).tag, old(self).depth as int, r->Ok_0)')],
          decreases='old(self).b@.len() - old(self).i, 3int',
-         loops={1: dict(invariant=[('inv', 'self.wf() && self.same_input(old(self)) && self.depth == old(self).depth && self.sexagesimal_is_time == old(self).sexagesimal_is_time && self.i >= old(self).i')], decreases='self.b@.len() - self.i')}),
+         proofs=[dict(at='start', ghost=True, text='let ghost bb = self.b@; let ghost i0 = self.i as int; let ghost gm = self.sexagesimal_is_time; let ghost gt = self.tag; let ghost gd = self.depth as int;'),
+                 dict(at='start', text='reveal(wit1); lemma_skip_ws_pos(bb, i0);'),
+                 dict(after='let mut sign = 1.0;', ghost=True, text='let ghost is = self.i as int;'),
+                 dict(after='loop {', ghost=True, text='let ghost s0 = sign;'),
+                 dict(after='self.bump();', nth=1, text='''
+                    assert forall|i1: int, e: Ev3| #[trigger] r_signs(bb, self.i as int, i1, gm, gt, gd, sign, e) implies r_signs(bb, is, i1, gm, gt, gd, 1.0f64, e) by {
+                        lemma_signs_bound(bb, self.i as int, i1, gm, gt, gd, sign, e);
+                        assert(r_signs(bb, self.i - 1, i1, gm, gt, gd, s0, e));
+                    }'''),
+                 dict(after_re=r'\bsign = [^;]*;', nth=2, text='''
+                    assert forall|i1: int, e: Ev3| #[trigger] r_signs(bb, self.i as int, i1, gm, gt, gd, sign, e) implies r_signs(bb, is, i1, gm, gt, gd, 1.0f64, e) by {
+                        lemma_signs_bound(bb, self.i as int, i1, gm, gt, gd, sign, e);
+                        assert(r_signs(bb, self.i - 1, i1, gm, gt, gd, s0, e));
+                    }'''),
+                 dict(after='let (v, used_unit, saw_plain) = self.primary()?;', text='''
+                    assert(wit1((v, used_unit, saw_plain)));
+                    assert(r_signs(bb, is2, self.i as int, gm, gt, gd, sign, (sp_fmul(sign, v), used_unit, saw_plain)));'''),
+                 dict(after_loop=1, ghost=True, text='let ghost is2 = self.i as int;'),
+                 ],
+         loops={1: dict(invariant=[('inv', 'self.wf() && self.same_input(old(self)) && self.depth == old(self).depth && self.sexagesimal_is_time == old(self).sexagesimal_is_time && self.i >= old(self).i && self.b@ == bb && i0 == old(self).i && gm == old(self).sexagesimal_is_time && gt == old(self).tag && gd == old(self).depth'), ('start', 'is == skip_ws_pos(bb, i0) && is <= self.i'),
+                    ('signs_so_far', 'forall|i1: int, e: Ev3| #[trigger] r_signs(bb, self.i as int, i1, gm, gt, gd, sign, e) ==> r_signs(bb, is, i1, gm, gt, gd, 1.0f64, e)')],
+                    ensures=[('no_sign_follows', '!(self.i < bb.len() && (bb[self.i as int] == 0x2b || bb[self.i as int] == 0x2d))')],
+                    decreases='self.b@.len() - self.i')},
+         canaries=['C19:unary_applies_every_sign_to_the_primary']),
     dict(src=R, path=IP + 'fn primary', props=P,
          rewrites=[DIGIT],
          requires=[('wf', 'old(self).wf()')],
-         ensures=[('keeps', 'final(self).wf() && final(self).same_input(old(self)) && final(self).depth == old(self).depth'), ('mode_restored', 'r is Ok ==> final(self).sexagesimal_is_time == old(self).sexagesimal_is_time'), ('forward', 'final(self).i >= old(self).i')],
-         decreases='old(self).b@.len() - old(self).i, 2int'),
+         ensures=[('keeps', 'final(self).wf() && final(self).same_input(old(self)) && final(self).depth == old(self).depth'), ('mode_restored', 'r is Ok ==> final(self).sexagesimal_is_time == old(self).sexagesimal_is_time'), ('forward', 'final(self).i >= old(self).i'),
+                  ('C19:primary_is_a_parenthesised_expression_a_number_or_a_name', 'r is Ok ==> r_primary(old(self).b@, old(self).i as int, final(self).i as int, old(self).sexagesimal_is_time, old(self).tag, old(self).depth as int, r->Ok_0)')],
+         decreases='old(self).b@.len() - old(self).i, 2int',
+         proofs=[dict(at='start', ghost=True, text='let ghost bb = self.b@; let ghost i0 = self.i as int; let ghost gm = self.sexagesimal_is_time; let ghost gt = self.tag; let ghost gd = self.depth as int;'),
+                 dict(at='start', text='reveal(witp); lemma_skip_ws_pos(bb, i0);'),
+                 dict(before='let (v, used, plain) = r?;', ghost=True, text='let ghost j = self.i as int;'),
+                 dict(after='let (v, used, plain) = r?;', text='assert(witp(j)); lemma_skip_ws_pos(bb, j);'),
+                 ],
+         canaries=['C19:primary_is_a_parenthesised_expression_a_number_or_a_name']),
     dict(src=R, path=IP + 'fn parse_ident_or_special', props=P,
          rewrites=[(r'&self\.s\[start\.\.self\.i\]', 'str_slice(self.s, start, self.i)', 1, 'R8'),
-                   (r'ident\.eq_ignore_ascii_case\(("\w+")\)', r'str_eq_ignore_ascii_case(ident, \1)', 7, 'R8'),
-                   (r'\(PI, false, true\)', '(f64_pi(), false, true)', 1, 'R8'),
-                   (r'\(2\.0 \* PI, false, true\)', '(fmul(2.0, f64_pi()), false, true)', 1, 'R8'),
-                   (r'f64::INFINITY', 'f64_infinity()', 1, 'R8'), (r'f64::NAN', 'f64_nan()', 1, 'R8'),
-                   (r'v \* DEG2RAD', 'fmul(v, f64_deg2rad())', 1, 'R8'),
+                   (r'ident\.eq_ignore_ascii_case\(("\w+")\)', r'str_eq_ignore_ascii_case(ident, \1)', None, 'R8'),
+                   (r'\(PI, false, true\)', '(f64_pi(), false, true)', None, 'R8'),
+                   (r'\(2\.0 \* PI, false, true\)', '(fmul(2.0, f64_pi()), false, true)', None, 'R8'),
+                   (r'f64::INFINITY', 'f64_infinity()', None, 'R8'), (r'f64::NAN', 'f64_nan()', None, 'R8'),
+                   (r'v \* DEG2RAD', 'fmul(v, f64_deg2rad())', None, 'R8'),
                    (r"self\.bump\(\) != Some\(b'\('\)", "!(self.bump() == Some(b'('))", 1, 'R8'),
                    (r"self\.bump\(\) != Some\(b'\)'\)", "!(self.bump() == Some(b')'))", 1, 'R8')],
          requires=[('wf', 'old(self).wf()'),
                    ('called_at_an_identifier_start', 'old(self).i < old(self).b@.len() && (sp_is_alpha(old(self).b@[old(self).i as int]) || old(self).b@[old(self).i as int] == 0x5f)')],
-         ensures=[('keeps', 'final(self).wf() && final(self).same_input(old(self)) && final(self).depth == old(self).depth'), ('mode_restored', 'r is Ok ==> final(self).sexagesimal_is_time == old(self).sexagesimal_is_time'), ('forward', 'final(self).i >= old(self).i')],
-         proofs=[dict(at='start', ghost=True, text='let ghost i0 = self.i;'),
-                 dict(before='let ident = str_slice(self.s, start, self.i);', text='axiom_ascii_byte_is_a_char(self.s@, start as int); axiom_ascii_byte_is_a_char(self.s@, self.i - 1);')],
+         ensures=[('keeps', 'final(self).wf() && final(self).same_input(old(self)) && final(self).depth == old(self).depth'), ('mode_restored', 'r is Ok ==> final(self).sexagesimal_is_time == old(self).sexagesimal_is_time'), ('forward', 'final(self).i >= old(self).i'),
+                  ('C19:name_is_a_constant_or_a_unit_function_of_an_expression', 'r is Ok ==> r_ident(old(self).b@, old(self).i as int, final(self).i as int, old(self).sexagesimal_is_time, old(self).tag, old(self).depth as int, r->Ok_0)')],
+         proofs=[dict(at='start', ghost=True, text='let ghost bb = self.b@; let ghost i0 = self.i as int; let ghost gm = self.sexagesimal_is_time; let ghost gt = self.tag; let ghost gd = self.depth as int;'),
+                 dict(at='start', text='reveal(wit); lemma_ident_literals();'),
+                 dict(before='let ident = str_slice(self.s, start, self.i);', text='axiom_ascii_byte_is_a_char(self.s@, start as int); axiom_ascii_byte_is_a_char(self.s@, self.i - 1);'),
+                 dict(after='let ident = str_slice(self.s, start, self.i);', ghost=True, text='let ghost ie = self.i as int;'),
+                 dict(after='let ident = str_slice(self.s, start, self.i);', text='assert(ident.spec_bytes() =~= bb.subrange(i0, ie)); lemma_skip_ws_pos(bb, ie);'),
+                 dict(before='let (v, _used_inner, _plain_inner) = r?;', ghost=True, text='let ghost j = self.i as int;'),
+                 dict(after='let (v, _used_inner, _plain_inner) = r?;', text='assert(wit(j, (v, _used_inner, _plain_inner))); lemma_skip_ws_pos(bb, j);'),
+                 ],
          decreases='old(self).b@.len() - old(self).i, 1int',
-         loops={1: dict(invariant=[('inv', 'self.wf() && self.same_input(old(self)) && self.depth == old(self).depth && self.sexagesimal_is_time == old(self).sexagesimal_is_time && self.i >= old(self).i'), ('ident_bytes', 'start == old(self).i && (self.i > start ==> self.b@[self.i - 1] < 0x80) && self.b@[start as int] < 0x80 && (self.i == start || self.i > start)'),
-                                   ('progress', 'self.i == start ==> self.i < self.b@.len() && (sp_is_alpha(self.b@[self.i as int]) || self.b@[self.i as int] == 0x5f)')],
-                        ensures=[('consumed_at_least_the_start', 'self.i > start')],
-                        decreases='self.b@.len() - self.i')}),
+         loops={1: dict(invariant=[('inv', 'self.wf() && self.same_input(old(self)) && self.depth == old(self).depth && self.sexagesimal_is_time == old(self).sexagesimal_is_time && self.i >= old(self).i && self.b@ == bb && i0 == old(self).i'), ('ident_bytes', 'start == old(self).i && (self.i > start ==> self.b@[self.i - 1] < 0x80) && self.b@[start as int] < 0x80 && (self.i == start || self.i > start)'),
+                                   ('progress', 'self.i == start ==> self.i < self.b@.len() && (sp_is_alpha(self.b@[self.i as int]) || self.b@[self.i as int] == 0x5f)'),
+                                   ('same_end', 'ident_end(bb, self.i as int) == ident_end(bb, i0)')],
+                        ensures=[('consumed_the_whole_name', 'self.i > start && self.i == ident_end(bb, i0)')],
+                        decreases='self.b@.len() - self.i')},
+         canaries=['C19:name_is_a_constant_or_a_unit_function_of_an_expression']),
     dict(src=R, path=IP + 'fn new', props=P,
          rewrites=[(r's\.as_bytes\(\)', 'str_as_bytes(s)', 1, 'R8')],
          proofs=[dict(at='start', text='axiom_str_len_bounded(s);')],
@@ -245,7 +362,13 @@ ITEMS = location_types() + budget_types() + error_types() + [
                        (r'\) -> Result<T, Error>\s*where\s*T: FromF64,\s*\{', ') -> Result<f64, Error> {', 1, 'R9'),
                        (r'Ok\(T::from_f64\(value\)\)', 'Ok(value)', 1, 'R9')],
          rewrites=[(r'SfTag::Degrees => value \*= DEG2RAD,', 'SfTag::Degrees => { value = fmul(value, f64_deg2rad()); }', 1, 'R8')],
-         proofs=[dict(after='let (mut value, used_unit, saw_plain) = p.expr()?;', ghost=True, text='let ghost v0 = value;'),
+         ensures=[('C19:value_is_the_reference_evaluation_of_the_whole_text_with_the_tag_applied_once', '''r is Ok ==> exists|j: int, e: Ev3| #[trigger] wit(j, e)
+                        && r_expr(s.spec_bytes(), skip_ws_pos(s.spec_bytes(), 0), j, true, tag, 0, e) && skip_ws_pos(s.spec_bytes(), j) == s.spec_bytes().len()
+                        && !(e.1 && tag is Degrees && e.2)
+                        && r->Ok_0 == (if !e.1 && tag is Degrees { sp_fmul(e.0, sp_deg2rad()) } else { e.0 })''')],
+         canaries=['C19:value_is_the_reference_evaluation_of_the_whole_text_with_the_tag_applied_once'],
+         proofs=[dict(after='let (mut value, used_unit, saw_plain) = p.expr()?;', ghost=True, text='let ghost v0 = value; let ghost j = p.i as int;'),
+                 dict(after='let (mut value, used_unit, saw_plain) = p.expr()?;', text='reveal(wit); assert(wit(j, (v0, used_unit, saw_plain)));'),
                  dict(before='Ok(value)', label='C19:degree_tag_converts_a_unitless_value_exactly_once_and_mixed_units_are_rejected',
                       text='''assert(if !used_unit { value == (if tag is Degrees { sp_fmul(v0, sp_deg2rad()) } else { v0 }) }
                                 else { value == v0 && !(tag is Degrees && saw_plain) });''')],
@@ -255,7 +378,13 @@ ITEMS = location_types() + budget_types() + error_types() + [
                        (r'\) -> Result<T, Error>\s*where\s*T: FromF64,\s*\{', ') -> Result<f32, Error> {', 1, 'R9'),
                        (r'Ok\(T::from_f64\(value\)\)', 'Ok(f64_to_f32(value))', 1, 'R9')],
          rewrites=[(r'SfTag::Degrees => value \*= DEG2RAD,', 'SfTag::Degrees => { value = fmul(value, f64_deg2rad()); }', 1, 'R8')],
-         proofs=[dict(after='let (mut value, used_unit, saw_plain) = p.expr()?;', ghost=True, text='let ghost v0 = value;'),
+         ensures=[('C19:value_is_the_reference_evaluation_of_the_whole_text_with_the_tag_applied_once', '''r is Ok ==> exists|j: int, e: Ev3| #[trigger] wit(j, e)
+                        && r_expr(s.spec_bytes(), skip_ws_pos(s.spec_bytes(), 0), j, true, tag, 0, e) && skip_ws_pos(s.spec_bytes(), j) == s.spec_bytes().len()
+                        && !(e.1 && tag is Degrees && e.2)
+                        && r->Ok_0 == sp_f64_to_f32(if !e.1 && tag is Degrees { sp_fmul(e.0, sp_deg2rad()) } else { e.0 })''')],
+         canaries=['C19:value_is_the_reference_evaluation_of_the_whole_text_with_the_tag_applied_once'],
+         proofs=[dict(after='let (mut value, used_unit, saw_plain) = p.expr()?;', ghost=True, text='let ghost v0 = value; let ghost j = p.i as int;'),
+                 dict(after='let (mut value, used_unit, saw_plain) = p.expr()?;', text='reveal(wit); assert(wit(j, (v0, used_unit, saw_plain)));'),
                  dict(before='Ok(f64_to_f32(value))', label='C19:degree_tag_converts_a_unitless_value_exactly_once_and_mixed_units_are_rejected',
                       text='''assert(if !used_unit { value == (if tag is Degrees { sp_fmul(v0, sp_deg2rad()) } else { v0 }) }
                                 else { value == v0 && !(tag is Degrees && saw_plain) });''')],
